@@ -2,32 +2,51 @@
 
 Mechanism: breezy/bzr/workingtree_4.py (DirStateWorkingTree._add, unversion,
 move, rename_one, set_parent_trees, flush; InterDirStateTree.iter_changes),
-breezy/bzr/workingtree.py (remove, _move, revert via transform), breezy/git/tree.py
+breezy/bzr/workingtree.py (remove, _move, revert via transform), breezy/transform.py
+(revert, _alter_files: backups, executable bit, `.moved` conflicts), breezy/git/tree.py
 (MutableGitIndexTree.add/unversion/rename_one/move, InterGitTrees.iter_changes),
 breezy/git/workingtree.py (_flush, _rename_one), breezy/mutabletree.py, breezy/workingtree.py.
 
 T2 (the statement is the correspondence): random operation sequences —
-mkdir, add, remove(keep_files | force), rename_one, move, file creation / edits
-/ chmod on disk, commit, revert(backups=False), re-open — are generated
+mkdir, add, remove(keep_files | force), rename_one, move, file / symbolic-link creation,
+content edits and chmod on disk, commit, revert(backups=False | True) of the whole tree,
+revert([file], backups=False | True), re-open — are generated
 *adaptively* from the observed state of a real working tree (2a dirstate and
 git index), executed on the real tree and replayed on the Lean step machine
 (Model/C09.lean, `step : Flavour -> State -> Op -> State x Out`).  After every
 step both sides are compared on: outcome (ok / error), all versioned paths with
-kind, file text / symlink target and executable bit, and the canonical status
+kind, file text / symlink target and executable bit, the canonical status
 against the basis (bzr: iter_changes records without ids, i.e. renames keep
-their identity; git: path-space added / removed / modified).  One tree object is
+their identity; git: path-space added / removed / modified) and EVERYTHING ON DISK
+below the root, versioned or not (path, kind, content, executable bit: backup copies
+`name.~N~` with the content and mode of the edited file, `.moved` objects, directories
+revert empties and deletes, unversioned files left alone).  One tree object is
 kept alive across the whole sequence (re-opened only by the occasional `reopen`
-op); names vacated by earlier renames / removals are reused on purpose.  The model's own
-invariant (disk tree, basis and working tree well-formed) is evaluated by the
-driver after every step.
+op); names vacated by earlier renames / removals are reused on purpose.
+Input families besides single random operations: (a) bursts — two or three edits to ONE
+committed file (content, mode, name, versionedness, in random combination and order)
+followed by a revert with or without backups or by a revert of just that file;
+(b) `lock` ... `unlock` blocks — 3-6 mutations under one lock_write held by the harness
+(no flush / re-read of dirstate or index in between; the live object is compared with a
+fresh one after the block); (c) half of the sequences start from a non-empty first commit
+(files, an executable, a directory, a symbolic link); write / chmod prefer files that
+already differ from the basis in the other aspect; contents are drawn from a small pool
+(collisions feed git's rename detection) or are tokens unique in the sequence.
+The model's own invariant (disk tree, basis and working tree well-formed; git: the basis is
+git-representable, i.e. the hypotheses of step_revert_status_empty_git_closed) is evaluated
+by the driver after every step.
 Oracle (independent of the model, on the real tree): an operation that raises
 leaves listing, status and the directory contents unchanged; after EVERY step, for
 every path the sequence has touched (present or just vacated, parents included),
 is_versioned / path2id / stored_kind of the live tree object agree with
 all_versioned_paths and with a freshly opened tree ("re-open is the identity on
-every query"); after commit the
-status is empty; after revert the listing equals the listing at the last
-commit and the status is empty; re-opening changes nothing; the status is sound
+every query"); after commit the status is empty; after revert (with and without backups)
+the listing equals the listing at the last commit — contents AND executable bits — and the
+status is empty; revert destroys no content (what an unversioned file held is still on disk,
+and with backups=True so is what every versioned file held); after revert([p]) exactly the
+entry of p is the committed one, every other versioned entry and every other object on disk
+is unchanged, and with backups a new `p.~N~` holds the content and mode of the edited file;
+re-opening changes nothing; the status is sound
 and complete with respect to the listings (the paths whose entry differs
 between the last commit and now are exactly the paths named by the status).
 A failing sequence is delta-debugged to a minimal op list before it is reported.
@@ -39,8 +58,9 @@ known_findings.json):
  (the same family covers every case where the rename detector has two candidates for one committed file: its old
      content in a new file while the file is still there modified, or in two new files; iter_changes then names the
      same source twice and revert leaves `<name>.moved` versioned)
- git-status-reports-root-renamed-to-directory       (git, NOT YET TRIAGED: all files of the basis moved into one
-     directory with the same names: iter_changes reports the root directory as renamed to that directory)
+ git-status-reports-root-renamed-to-directory       (git: all files of the basis moved into one
+     directory with the same names: iter_changes reports the root directory as renamed to that directory; a revert
+     then "renames it back", which moves unversioned files of that directory into the root)
  git-revert-raises-after-remove-keep                (git: revert raises KeyError when a committed file was removed with
      keep_files and its directory is no longer versioned)
 Found by this check and FIXED in /repo (no family any more: a regression is a plain VIOLATION; the minimal
@@ -53,14 +73,24 @@ Mutants tried (scratch worktree, known findings treated as known):
  s1 (seeded by the coordinator) git rename_one keeps stale `_versioned_dirs` cache entries: live is_versioned('d') /
     path2id / stored_kind say "directory" after the rename, a re-opened tree says gone -> oracle (reopen-query), every seed,
     minimal ['mkfile:c', 'add:c', 'rename:c:d']; pinned in corpus/C09/git-versioned-dirs-cache-after-rename.json
+ s2 (seeded) transform._alter_files skips set_executability when the edited file is backed up (`mode_id is None` guard):
+    content + mode edit of a committed file, then revert(backups=True) keeps the edited bit -> oracle (revert-restore),
+    seeds 0-3, minimal ['mkfile:b:78', 'add:b', 'commit', 'chmod:b:T', 'write:b:..', 'revert:b'], bzr and git
  f1/f2/f3 each of the three fix: commits reverted                                  -> oracle, minimal sequences (see report)
  m2 InventoryWorkingTree._move_entry: inv.rename(..., entry.from_tail)             -> oracle (error not atomic / status)
  m4 MutableGitIndexTree.rename_one: index entry of the old path kept               -> oracle (status vs listing) + T2
  m5 transform._alter_files (revert): content of added files not kept               -> oracle (revert deleted files outside the basis)
  m6 InventoryWorkingTree.remove: keep_files ignored for directories                -> T2 (minimal: ['remove:b:k'])
+ m8 bzr TreeTransform._available_backup_name ignores existing names (always .~1~)  -> T2 on the disk listing
+    (minimal: write e; revert:b; write e; revert:b -> `e.~1~.moved` instead of `e.~2~`)
+ m10 DirStateWorkingTree._add: _make_dirty(reset_inventory=False) (stale cached inventory; invisible when every
+    operation takes its own lock)                                                  -> oracle, minimal ['lock', 'mkfile:a', 'add:a']
+ m12 _alter_files: backup placed in the directory of the TARGET path               -> T2 on the disk listing (rename + edit + revert:b)
+ m13 _alter_files: `backups or target_kind is None` -> `backups`                    -> oracle (revert deleted files outside the basis)
  m1 DirStateWorkingTree.unversion children / m3 MutableGitIndexTree._unversion_path directory branch: NOT reached
     by the operations generated here (remove() goes through apply_inventory_delta / per-file unversion) - not caught
- harmless (stays clean): reordered comparison and reworded message in _move_entry
+ harmless (stays clean): reordered comparison and reworded message in _move_entry; reordered / negated condition of the
+    final set_executability in _alter_files
 """
 import os
 import shutil
@@ -70,20 +100,30 @@ from vlib import env
 THEOREMS = [
     "reopen_id", "run_append", "step_error_unchanged", "mkdir_error_no_leftover", "rename_missing_source_fails",
     "changesOf_self", "commit_status_empty", "status_sound_complete", "revert_restores", "revert_only_basis",
+    "revert_backups_same_versioned", "step_revert_ok", "step_revert_basis", "step_revert_only_basis",
+    "step_revert_restores_bzr", "step_revert_restores_git_nondir", "step_revert_restores_git_kept",
+    "step_revert_restores_git", "step_revert_status_empty_bzr", "step_revert_status_empty_git",
+    "step_revert_status_empty_git_closed", "revertPath_restores_entry", "pathStatus_complete", "pathStatus_sound",
+    "pathStatus_nil_iff",
 ]
-RULE = ("case = (format, op sequence generated adaptively from the real tree, with re-open at random points); compared after "
-        "every step; distinct by (format, canonical op list); non-trivial = at least 3 successful mutating ops and one of "
-        "commit / revert / reopen")
+RULE = ("case = (format, op sequence generated adaptively from the real tree: single operations, bursts of 2-3 edits to one "
+        "committed file (content / mode / name / versionedness) followed by a revert with or without backups, blocks of 3-6 "
+        "mutations under ONE write lock, half of the sequences after a non-empty first commit, re-open at random points); "
+        "compared after every step; distinct by (format, canonical op list); non-trivial = at least 3 successful mutating ops "
+        "and one of commit / revert / reopen")
 ASSUMPTIONS = [
-    "names from {a,b,c,d}, depth <= 3, contents from 4 values; sequences <= 25 ops (70 per quick run, 400 per thorough run); theorems are unbounded",
+    "names from {a..f} (plus the `.moved` / `.~N~` names revert makes), depth <= 3, contents from 4 values plus tokens unique in the sequence; sequences <= 25 ops plus bursts (70 per quick run, 400 per thorough run); theorems are unbounded",
     "files are never replaced by directories on disk behind the tree's back (kind changes) and versioned files are only deleted through remove",
     "bzr rename_one / move of a path that is not versioned any more but still in the basis (resurrects the basis entry) is outside the model: such operations are skipped",
-    "revert is run with backups=False; conflicts of revert other than 'unversioned object in the way -> .moved' are avoided by the generator",
+    "revert is run on the whole tree with backups=False and backups=True, and on ONE file or symbolic link that both trees have at the same path (bzr: not below or part of a rename / removal / addition); conflicts of revert other than 'unversioned object in the way -> .moved' are avoided by the generator",
+    "remove is run with keep_files or force (the default mode that refuses / backs up changed files is not generated)",
+    "symbolic links point to names that do not exist",
     "case-sensitive UTF-8 file system",
 ]
 TRUSTED = ["dirstate and git index byte formats (bzrformats / dulwich) are exercised through re-opening, not modelled"]
 
-NAMES = ["a", "b", "c", "d"]
+NAMES = ["a", "b", "c", "d", "e", "f"]
+LOCKED_OPS = ("mkfile", "mklink", "mkdir", "add", "remove", "unversion", "rename", "move", "write", "chmod")
 CONTENTS = ["", "x", "y", "xy"]
 
 
@@ -99,9 +139,19 @@ class Real:
         self.wt = env.make_tree("2a" if fmt == "bzr" else "git")
         self.base = self.wt.basedir
         self.ctl = ".bzr" if fmt == "bzr" else ".git"
+        self._lk = None           # the long write lock of a `lock` ... `unlock` block
 
     def close(self):
+        self.unlock()
         shutil.rmtree(self.base, ignore_errors=True)
+
+    def locked(self):
+        return self._lk is not None
+
+    def unlock(self):
+        if self._lk is not None:
+            lk, self._lk = self._lk, None
+            lk.unlock()
 
     def full(self, p):
         return os.path.join(self.base, p)
@@ -111,6 +161,15 @@ class Real:
         k = op[0]
         wt = self.wt
         try:
+            if k == "lock":
+                if self._lk is None:
+                    self._lk = wt.lock_write()
+                return "ok"
+            if k == "unlock" or k in ("commit", "revert", "revertp", "reopen"):
+                # commit / revert / re-open always run with the block closed
+                self.unlock()
+                if k == "unlock":
+                    return "ok"
             if k == "mkfile":
                 with open(self.full(op[1]), "xb") as f:
                     f.write(op[2].encode())
@@ -129,6 +188,8 @@ class Real:
                 wt.add([op[1]])
             elif k == "remove":
                 wt.remove([op[1]], keep_files=(op[2] == "k"), force=(op[2] == "f"))
+            elif k == "unversion":
+                wt.unversion([op[1]])
             elif k == "rename":
                 wt.rename_one(op[1], op[2])
             elif k == "move":
@@ -136,7 +197,13 @@ class Real:
             elif k == "commit":
                 wt.commit("c")
             elif k == "revert":
-                wt.revert(backups=False)
+                wt.revert(backups=(len(op) > 1 and op[1] == "b"))
+            elif k == "revertp":
+                wt.revert([op[1]], backups=(op[2] == "b"))
+            elif k == "mklink":
+                if os.path.lexists(self.full(op[1])):
+                    raise FileExistsError(op[1])
+                os.symlink(op[2], self.full(op[1]))
             elif k == "reopen":
                 self.wt = WorkingTree.open(self.base)
             else:
@@ -206,10 +273,28 @@ class Real:
             if rel == ".":
                 ds[:] = [x for x in ds if x != self.ctl]
                 rel = ""
-            for n in ds:
-                out.append((os.path.join(rel, n), "d"))
+            for n in list(ds):
+                if os.path.islink(os.path.join(d, n)):
+                    out.append((os.path.join(rel, n), "l"))
+                else:
+                    out.append((os.path.join(rel, n), "d"))
             for n in fs:
-                out.append((os.path.join(rel, n), "f"))
+                out.append((os.path.join(rel, n), "l" if os.path.islink(os.path.join(d, n)) else "f"))
+        return sorted(out)
+
+    def disk_listing(self):
+        """everything below the root, versioned or not: `path|kind|content|exec`"""
+        out = []
+        for p, k in self.disk():
+            fp = self.full(p)
+            if k == "d":
+                out.append("%s|directory|-|F" % p)
+            elif k == "l":
+                out.append("%s|symlink|%s|F" % (p, hx(os.readlink(fp))))
+            else:
+                with open(fp, "rb") as f:
+                    txt = f.read().hex() or "-"
+                out.append("%s|file|%s|%s" % (p, txt, "T" if os.stat(fp).st_mode & 0o100 else "F"))
         return sorted(out)
 
 
@@ -331,14 +416,28 @@ def git_dir_holds_whole_basis(committed, current):
     return False
 
 
+def git_file_at_basis_directory(committed, listing, disk):
+    """an unversioned object that is not a directory sits at a path where the last commit has a
+    directory (the directory was renamed away or removed): git's revert takes that object for the
+    directory (same path = same transform id), resolves a 'non-directory parent' conflict and ends
+    with the contents versioned below `<name>.moved.new`"""
+    cdirs = {l.split("|")[0] for l in committed if l.split("|")[1] == "directory"}
+    ver = {l.split("|")[0] for l in listing}
+    return any(k != "d" and q in cdirs and q not in ver for q, k in disk)
+
+
 def enc_op(op):
     k = op[0]
     P = lambda p: p or "."
-    if k in ("mkfile", "write"):
+    if k in ("mkfile", "write", "mklink"):
         return "%s:%s:%s" % (k, P(op[1]), hx(op[2]))
+    if k == "revert":
+        return "revert:b" if len(op) > 1 and op[1] == "b" else "revert"
+    if k == "revertp":
+        return "revertp:%s:%s" % (P(op[1]), op[2])
     if k == "chmod":
         return "chmod:%s:%s" % (P(op[1]), "T" if op[2] else "F")
-    if k in ("mkdir", "add"):
+    if k in ("mkdir", "add", "unversion"):
         return "%s:%s" % (k, P(op[1]))
     if k == "remove":
         return "remove:%s:%s" % (P(op[1]), op[2])
@@ -354,10 +453,55 @@ def enc_op(op):
 # --------------------------------------------------------------------------
 # adaptive generator
 
-def gen_op(rng, listing, disk, vacated=()):
-    ver = {l.split("|")[0]: l.split("|")[1] for l in listing}
+OPS = ["mkfile", "mkdir", "add", "remove", "rename", "move", "write", "chmod", "commit", "revert", "reopen", "mklink", "burst",
+       "revertp", "unversion"]
+WEIGHTS = [8, 7, 12, 7, 12, 6, 9, 7, 7, 9, 4, 3, 13, 8, 4]
+
+
+def fresh_content(rng, avoid=None, st=None):
+    """a content from the small pool (collisions matter for git's rename detection) or a token
+    that occurs nowhere else in the sequence (so that its survival can be checked)"""
+    if st is not None and rng.random() < 0.3:
+        st["u"] = st.get("u", 0) + 1
+        return "u%d" % st["u"]
+    c = rng.choice(CONTENTS)
+    if c == avoid:
+        c = rng.choice(CONTENTS)
+    return c
+
+
+def revertp_candidates(fmt, listing, committed, status):
+    """paths for `revert([p])` inside the modelled envelope: a file or symbolic link that the working tree and
+    the last commit both have at that path; bzr: neither the path nor a directory above it is part of a
+    rename / removal / addition (so that it is the same entry in the same directory)"""
+    ver = {l.split("|")[0]: l.split("|") for l in listing}
+    com = {l.split("|")[0]: l.split("|") for l in committed}
+    out = []
+    for q, f in ver.items():
+        g = com.get(q)
+        if g is None or f[1] != g[1] or f[1] not in ("file", "symlink"):
+            continue
+        if fmt == "bzr":
+            moved = set()
+            for r in status:
+                a, b = r.split("|")[:2]
+                if a != b:
+                    moved.update(x for x in (a, b) if x != "~")
+            if any(q == x or q.startswith(x + "/") for x in moved):
+                continue
+        out.append(q)
+    return sorted(out)
+
+
+def gen_op(rng, listing, disk, vacated=(), committed=(), st=None, fmt="bzr", status=()):
+    """one operation, or a list of operations (a burst of edits to one file followed by a revert)"""
+    ver = {l.split("|")[0]: l.split("|") for l in listing}
     ver_paths = sorted(p for p in ver if p != ".")
-    ver_dirs = sorted(("" if p == "." else p) for p, k in ver.items() if k == "directory")
+    ver_dirs = sorted(("" if p == "." else p) for p, f in ver.items() if f[1] == "directory")
+    ver_files = sorted(p for p, f in ver.items() if f[1] == "file")
+    com = {l.split("|")[0]: l.split("|") for l in committed}
+    # versioned files that are part of the last commit at the same path: what revert has to restore
+    com_files = [p for p in ver_files if p in com and com[p][1] == "file"]
     disk_dirs = [""] + [p for p, k in disk if k == "d"]
     disk_files = [p for p, k in disk if k == "f"]
     disk_all = [p for p, k in disk]
@@ -369,8 +513,12 @@ def gen_op(rng, listing, disk, vacated=()):
     free = sorted(p for p in vacated if p not in ver and p not in on_disk and
                   (("/" not in p) or p.rsplit("/", 1)[0] in on_disk))
 
-    def child(d):
-        n = rng.choice(NAMES)
+    def child(d, free_only=0.75):
+        # mostly a name that is free in d (so that the operation can succeed)
+        ns = NAMES
+        if rng.random() < free_only:
+            ns = [n for n in NAMES if ((d + "/" + n) if d else n) not in on_disk] or NAMES
+        n = rng.choice(ns)
         return (d + "/" + n) if d else n
 
     def target(d):
@@ -381,19 +529,40 @@ def gen_op(rng, listing, disk, vacated=()):
     def shallow(ds):
         ds = [d for d in ds if d.count("/") < 2]
         return rng.choice(ds) if ds else ""
+
+    def edit_target(aspect=None):
+        """a file to edit: mostly a versioned one, mostly one the last commit knows; often one that
+        already differs from the last commit in the OTHER aspect (content 2 / mode 3)"""
+        r = rng.random()
+        if aspect is not None and rng.random() < 0.5:
+            other = 5 - aspect
+            half = [p for p in com_files if ver[p][other] != com[p][other] and ver[p][aspect] == com[p][aspect]]
+            if half:
+                return rng.choice(half)
+        if com_files and r < 0.55:
+            return rng.choice(com_files)
+        if ver_files and r < 0.8:
+            return rng.choice(ver_files)
+        return rng.choice(disk_files) if disk_files else None
+
+    def cur(p):
+        return ver.get(p)
+
     r = rng.random()
-    if r < 0.08:
+    if r < 0.07:
         # malformed / error stream
         return rng.choice([
             ("add", "zz"), ("remove", "zz", "k"), ("rename", "zz", "a"), ("mkdir", "zz/a"), ("rename", child(""), "zz/q"),
             ("remove", "", "k"), ("rename", "", "a"), ("add", child(shallow(disk_dirs))), ("move", child(""), child("")),
             ("write", "zz", "x"), ("remove", rng.choice(unver) if unver else "zz", "k"),
-            ("rename", rng.choice(unver) if unver else "zz", child("")),
+            ("rename", rng.choice(unver) if unver else "zz", child("")), ("chmod", "zz", True),
+            ("mklink", rng.choice(disk_all) if disk_all else "zz/l", "zz"),
         ])
-    k = rng.choices(["mkfile", "mkdir", "add", "remove", "rename", "move", "write", "chmod", "commit", "revert", "reopen"],
-                    [14, 9, 16, 9, 14, 7, 8, 4, 8, 5, 5])[0]
+    k = rng.choices(OPS, WEIGHTS)[0]
     if k == "mkfile":
-        return ("mkfile", target(shallow(disk_dirs)), rng.choice(CONTENTS))
+        return ("mkfile", target(shallow(disk_dirs)), fresh_content(rng, st=st))
+    if k == "mklink":
+        return ("mklink", target(shallow(disk_dirs)), rng.choice(["zz", "zz/t", "x"]))
     if k == "mkdir":
         return ("mkdir", target(shallow(ver_dirs if rng.random() < 0.85 else disk_dirs)))
     if k == "add":
@@ -404,6 +573,10 @@ def gen_op(rng, listing, disk, vacated=()):
         if not ver_paths:
             return ("mkdir", child(""))
         return ("remove", rng.choice(ver_paths), rng.choice(["k", "k", "f"]))
+    if k == "unversion":
+        if ver_paths and rng.random() < 0.85:
+            return ("unversion", rng.choice(ver_paths))
+        return ("unversion", rng.choice(unver) if unver and rng.random() < 0.7 else rng.choice(["", "zz"]))
     if k == "rename":
         if not ver_paths:
             return ("mkfile", child(""), "x")
@@ -419,12 +592,94 @@ def gen_op(rng, listing, disk, vacated=()):
             cands = [p for p in ver_paths if p.rsplit("/", 1)[-1] == f.rsplit("/", 1)[-1]]
             if cands:
                 return ("move", rng.choice(cands), f.rsplit("/", 1)[0] if "/" in f else "")
-        return ("move", rng.choice(ver_paths), shallow(ver_dirs if rng.random() < 0.9 else disk_dirs))
+        a = rng.choice(ver_paths)
+        ds = [d for d in (ver_dirs if rng.random() < 0.9 else disk_dirs) if d.count("/") < 2]
+        if rng.random() < 0.85:
+            # mostly a destination where the move can succeed: another directory, not below the source, name free
+            ds = [d for d in ds if d != (a.rsplit("/", 1)[0] if "/" in a else "") and d != a and not d.startswith(a + "/")
+                  and ((d + "/" if d else "") + a.rsplit("/", 1)[-1]) not in on_disk]
+            if not ds:
+                # nowhere to move to yet: make a directory
+                return ("mkdir", child(shallow(ver_dirs)))
+        return ("move", a, rng.choice(ds) if ds else "")
     if k == "write":
-        return ("write", rng.choice(disk_files), rng.choice(CONTENTS)) if disk_files else ("mkfile", child(""), "y")
+        f = edit_target(2)
+        if f is None:
+            return ("mkfile", child(""), "y")
+        return ("write", f, fresh_content(rng, avoid=bytes.fromhex(cur(f)[2].replace("-", "")).decode() if cur(f) else None, st=st))
     if k == "chmod":
-        return ("chmod", rng.choice(disk_files), rng.random() < 0.6) if disk_files else ("mkfile", child(""), "y")
+        f = edit_target(3)
+        if f is None:
+            return ("mkfile", child(""), "y")
+        # mostly a real change of the bit
+        if cur(f) and rng.random() < 0.8:
+            return ("chmod", f, cur(f)[3] != "T")
+        return ("chmod", f, rng.random() < 0.6)
+    if k == "burst":
+        # several edits to ONE file the last commit knows (content, mode, name, versionedness in
+        # a random combination and order), then mostly a revert: interactions of edits
+        f = edit_target()
+        if f is None or cur(f) is None:
+            return ("mkfile", child(""), fresh_content(rng, st=st))
+        kinds = rng.choice([["write", "chmod"], ["write", "rename"], ["chmod", "rename"], ["write", "chmod", "rename"]])
+        kinds = rng.sample(kinds, len(kinds))
+        if rng.random() < 0.15:
+            kinds = kinds + ["remove"]
+        out = []
+        name = f
+        for e in kinds:
+            if e == "write":
+                out.append(("write", name, fresh_content(rng, avoid=bytes.fromhex(cur(f)[2].replace("-", "")).decode(), st=st)))
+            elif e == "chmod":
+                out.append(("chmod", name, cur(f)[3] != "T"))
+            elif e == "rename":
+                new = target(shallow(ver_dirs))
+                if new in on_disk or new == name:
+                    continue
+                out.append(("rename", name, new))
+                name = new
+            else:
+                out.append(("remove", name, "k"))
+        if rng.random() < 0.8:
+            if "rename" not in kinds and "remove" not in kinds and rng.random() < 0.4 and \
+                    f in revertp_candidates(fmt, listing, committed, status):
+                out.append(("revertp", f, rng.choice(["b", "n"])))
+            else:
+                out.append(("revert", "b") if rng.random() < 0.6 else ("revert",))
+        return out
+    if k == "revert":
+        return ("revert", "b") if rng.random() < 0.5 else ("revert",)
+    if k == "revertp":
+        cands = revertp_candidates(fmt, listing, committed, status)
+        dirty = [q for q in cands if ver[q] != com[q]]
+        if dirty and rng.random() < 0.8:
+            cands = dirty
+        if not cands:
+            return ("reopen",)
+        return ("revertp", rng.choice(cands), rng.choice(["b", "n"]))
     return (k,)
+
+
+def setup_prefix(rng, st):
+    """a non-empty first commit: 2-4 files (one mostly below a directory, some executable), perhaps a
+    symbolic link, all added and committed, so that the rest of the sequence works against a basis"""
+    names = rng.sample(NAMES, 4)
+    out = []
+    d = None
+    if rng.random() < 0.7:
+        d = names.pop()
+        out.append(("mkdir", d))
+    for n in names[:rng.randint(2, 3)]:
+        p = (d + "/" + n) if d is not None and rng.random() < 0.5 else n
+        if rng.random() < 0.15:
+            out.append(("mklink", p, "zz"))
+        else:
+            out.append(("mkfile", p, fresh_content(rng, st=st)))
+            if rng.random() < 0.35:
+                out.append(("chmod", p, True))
+        out.append(("add", p))
+    out.append(("commit",))
+    return out
 
 
 def risky_revert(listing, committed, disk):
@@ -452,28 +707,62 @@ def run_real(fmt, ops=None, rng=None, length=0, gen=True):
         skipped = 0
         known = {"."}
         vacated = set()
+        combos = []
+        pending = []              # rest of a burst
+        gst = {}                  # generator state (unique content counter)
+        held = None               # operations still to run under the one write lock that is held
         while True:
             if ops is not None:
                 if i >= len(ops):
                     break
                 op = tuple(ops[i])
             else:
-                if i >= length:
+                if i >= length and not pending:
                     break
-                op = gen_op(rng, listing, disk, vacated)
+                if i == 0 and rng.random() < 0.5:
+                    pending = setup_prefix(rng, gst)
+                if pending:
+                    op = pending.pop(0)
+                elif held is None and rng.random() < 0.06:
+                    # several mutations under ONE lock_write (no flush / re-read in between)
+                    op = ("lock",)
+                    held = rng.randint(3, 6)
+                elif held == 0:
+                    op = ("unlock",)
+                    held = None
+                else:
+                    op = gen_op(rng, listing, disk, vacated, committed, gst, fmt, prev_status)
+                    if held is not None:
+                        for _ in range(20):
+                            if not isinstance(op, list) and op[0] in LOCKED_OPS:
+                                break
+                            op = gen_op(rng, listing, disk, vacated, committed, gst, fmt, prev_status)
+                        else:
+                            op = ("mkfile", "zz", "x")
+                        held -= 1
+                    if isinstance(op, list):
+                        if not op:
+                            continue
+                        pending = list(op[1:])
+                        op = op[0]
                 if op[0] == "revert" and risky_revert(listing, committed, disk):
                     op = ("reopen",)
             i += 1
+            if op[0] in ("lock", "unlock"):
+                done.append((list(op), r.do(op)))
+                continue
             if fmt == "bzr" and op[0] in ("rename", "move") and (op[1] or ".") not in {
                     l.split("|")[0] for l in listing} and (op[1] or ".") in {l.split("|")[0] for l in committed}:
                 # outside the modelled envelope (documented bzr feature: rename_one of a path that
                 # is no longer versioned but still in the basis puts the basis entry back): skipped
                 skipped += 1
                 continue
+            disk_l = r.disk_listing() if op[0] in ("revert", "revertp") else None
             res = r.do(op)
             new_listing = r.listing()
             ch = r.changes()
             new_disk = r.disk()
+            new_disk_l = r.disk_listing()
             sb = status_bzr(ch)
             st = sb if fmt == "bzr" else status_paths(ch, committed, new_listing)
             # ---- oracle ----------------------------------------------------
@@ -499,12 +788,36 @@ def run_real(fmt, ops=None, rng=None, length=0, gen=True):
                     if ch:
                         problems.append((where, "status not empty after commit: %r" % (sb[:3],), "commit-status", None))
                 if op[0] == "revert":
+                    # what the revert had to undo (coverage counters)
+                    cbf = {l.split("|")[0]: l.split("|") for l in committed}
+                    cwf = {l.split("|")[0]: l.split("|") for l in listing}
+                    asp = set()
+                    for q, f in cwf.items():
+                        g = cbf.get(q)
+                        if g is None:
+                            asp.add("added")
+                        elif f[1] == g[1] == "file":
+                            if f[2] != g[2] and f[3] != g[3]:
+                                asp.add("content+mode")
+                            elif f[2] != g[2]:
+                                asp.add("content")
+                            elif f[3] != g[3]:
+                                asp.add("mode")
+                        elif f != g:
+                            asp.add("kind-or-target")
+                    if any(q not in cwf for q in cbf):
+                        asp.add("missing")
+                    bk = "b" if len(op) > 1 and op[1] == "b" else "n"
+                    for a_ in asp or {"clean"}:
+                        combos.append("revert:%s:%s" % (bk, a_))
                     # (before the first commit the basis is the empty tree: only the root stays)
                     if new_listing != (committed or [".|directory|-|F"]):
                         problems.append((where, "revert did not restore the versioned part: %r" % (
                             sorted(set(new_listing) ^ set(committed))[:4],), "revert-restore",
                             "git-rename-detection-pairs-modified-file-with-added-copy"
-                            if fmt == "git" and git_copy_of_modified(committed, listing) else None))
+                            if fmt == "git" and git_copy_of_modified(committed, listing) else
+                            "git-revert-unversioned-file-at-path-of-basis-directory"
+                            if fmt == "git" and git_file_at_basis_directory(committed, listing, disk) else None))
                     # unversioned files and files that were only added stay on disk
                     cb = {l.split("|")[0] for l in committed}
                     verp = {l.split("|")[0]: l.split("|")[1] for l in listing}
@@ -525,13 +838,44 @@ def run_real(fmt, ops=None, rng=None, length=0, gen=True):
                     if lost:
                         problems.append((where, "revert deleted files that are not part of the basis: %r" % (lost[:4],),
                                          "revert-deletes-unversioned", None))
+                    # no content is destroyed: what an unversioned file held is still there, and with
+                    # backups=True so is what every versioned file held (restored, kept or backed up)
+                    texts_after = {l.split("|")[2] for l in new_disk_l if l.split("|")[1] == "file"}
+                    was = {l.split("|")[0]: l.split("|") for l in disk_l}
+                    gone = sorted(q for q, f in was.items() if f[1] == "file" and f[2] not in texts_after and
+                                  (q not in verp or (len(op) > 1 and op[1] == "b")))
+                    if gone:
+                        problems.append((where, "revert(backups=%s) destroyed the content of %r" % (
+                            len(op) > 1 and op[1] == "b", [(q, was[q][2]) for q in gone[:3]]), "revert-loses-content", None))
                     if ch and (committed or sb != ["~|.|T|FT|~|directory|~|F"]):
                         problems.append((where, "status not empty after revert: %r" % (sb[:3],), "revert-status", None))
+                if op[0] == "revertp":
+                    # exactly that entry is restored, nothing else changes, a backup holds what the file held
+                    cbl = {l.split("|")[0]: l for l in committed}
+                    q = op[1]
+                    if q in cbl:
+                        exp = sorted([l for l in listing if l.split("|")[0] != q] + [cbl[q]])
+                        if new_listing != exp:
+                            problems.append((where, "revert of %r: versioned entries are %r, expected %r" % (
+                                q, sorted(set(new_listing) - set(exp))[:3], sorted(set(exp) - set(new_listing))[:3]),
+                                "revertp-restore", None))
+                    pre = {l.split("|")[0]: l for l in disk_l}
+                    post = {l.split("|")[0]: l for l in new_disk_l}
+                    others = sorted(x for x in set(pre) | set(post) if pre.get(x) != post.get(x) and x != q
+                                    and not (x.startswith(q + ".~") and x not in pre))
+                    if others:
+                        problems.append((where, "revert of %r changed other objects on disk: %r" % (
+                            q, [(x, pre.get(x), post.get(x)) for x in others[:3]]), "revertp-touches-others", None))
+                    was = pre.get(q, "").split("|")
+                    if op[2] == "b" and q in cbl and len(was) == 4 and was[1] == "file" and was[2] != cbl[q].split("|")[2] and not any(
+                            x.startswith(q + ".~") and x not in pre and l.split("|")[1:] == was[1:] for x, l in post.items()):
+                        problems.append((where, "revert of %r with backups: no backup with the content and mode of the edited file %r" % (
+                            q, was[1:]), "revertp-backup", None))
                 if op[0] == "reopen" and (new_listing != listing or sb != prev_status):
                     problems.append((where, "re-opening changed the tree: %r / %r" % (
                         sorted(set(new_listing) ^ set(listing))[:4], sorted(set(sb) ^ set(prev_status))[:3]), "reopen", None))
             # an operation on a source path that is not versioned must not change what is versioned
-            if res == "ok" and op[0] in ("rename", "move", "remove") and (op[1] or ".") not in {
+            if res == "ok" and op[0] in ("rename", "move", "remove", "unversion") and (op[1] or ".") not in {
                     l.split("|")[0] for l in listing} and (new_listing != listing or sb != prev_status):
                 problems.append((where, "%s of the unversioned path %r changed the tree: %r" % (
                     op[0], op[1], sorted(set(listing) ^ set(new_listing))[:4]), "unversioned-source", None))
@@ -564,7 +908,7 @@ def run_real(fmt, ops=None, rng=None, length=0, gen=True):
                     vacated.add(l.split("|")[0])
             kp = sorted(known)
             live = r.queries(kp)
-            fresh = r.queries(kp, fresh=True)
+            fresh = live if r.locked() else r.queries(kp, fresh=True)
             bad_live = [(q, live[q]) for q in kp if live[q][:2] != (q in vnow, q in vnow) or
                         (q in vnow and live[q][2] != vnow[q] and not vnow[q].startswith("!"))]
             bad_fresh = [(q, live[q], fresh[q]) for q in kp if live[q] != fresh[q]]
@@ -575,16 +919,58 @@ def run_real(fmt, ops=None, rng=None, length=0, gen=True):
             elif bad_live:
                 problems.append((where, "is_versioned / path2id / stored_kind disagree with all_versioned_paths: %r (versioned: %r)" % (
                     bad_live[:3], sorted(vnow)), "query-consistency", None))
-            steps.append("%s@%s@%s" % ("ok" if res == "ok" else "err", ";".join(new_listing) or "-", ";".join(st) or "-"))
+            steps.append("%s@%s@%s@%s" % ("ok" if res == "ok" else "err", ";".join(new_listing) or "-", ";".join(st) or "-",
+                                         ";".join(new_disk_l) or "-"))
             done.append((list(op), res))
             listing, disk, prev_status = new_listing, new_disk, sb
-        return dict(ops=[d[0] for d in done], results=[d[1] for d in done], steps=steps, problems=problems, skipped=skipped)
+        return dict(ops=[d[0] for d in done], results=[d[1] for d in done], steps=steps, problems=problems, skipped=skipped,
+                    combos=combos)
     finally:
         r.close()
 
 
+def edit_matrix():
+    """the complete matrix `edits to ONE committed file x kind of revert`: every non-empty subset of {content edit,
+    mode flip, rename} in every order, for a file committed executable or not, at the top or in a directory,
+    followed by revert / revert with backups / (when the name is unchanged) revert of just that file with and
+    without backups, then re-open; for both formats"""
+    import itertools
+    out = []
+    for fmt in ("bzr", "git"):
+        for loc in ("a", "d/a"):
+            for e0 in (False, True):
+                for k in (1, 2, 3):
+                    for edits in itertools.permutations(("write", "chmod", "rename"), k):
+                        finals = [("revert",), ("revert", "b")]
+                        if "rename" not in edits:
+                            finals += [("revertp", loc, "n"), ("revertp", loc, "b")]
+                        for fin in finals:
+                            ops = [("mkdir", "d"), ("mkfile", loc, "x")] + ([("chmod", loc, True)] if e0 else []) + [
+                                ("add", loc), ("mkfile", "g", "gg"), ("add", "g"), ("commit",), ("write", "g", "gh")]
+                            name = loc
+                            for e in edits:
+                                if e == "write":
+                                    ops.append(("write", name, "u1"))
+                                elif e == "chmod":
+                                    ops.append(("chmod", name, not e0))
+                                else:
+                                    new = "d/b" if name == "a" else "b"
+                                    ops.append(("rename", name, new))
+                                    name = new
+                            out.append((fmt, [list(o) for o in ops + [fin, ("reopen",)]]))
+    return out
+
+
 def _job(job):
     import random
+    if job[0] == "ops":
+        try:
+            return run_real(job[1], ops=job[2])
+        except (KeyboardInterrupt, SystemExit):
+            raise
+        except BaseException as e:
+            import traceback
+            return dict(error="%s: %s" % (type(e).__name__, e), tb=traceback.format_exc()[-1200:], ops=[], steps=[], problems=[])
     fmt, seed, length = job
     try:
         return run_real(fmt, rng=random.Random(seed), length=length)
@@ -595,9 +981,14 @@ def _job(job):
         return dict(error="%s: %s" % (type(e).__name__, e), tb=traceback.format_exc()[-1200:], ops=[], steps=[], problems=[])
 
 
-def model_steps(ctx, fmt, ops):
-    line = "run %s %s" % ("b" if fmt == "bzr" else "g", ",".join(enc_op(tuple(o)) for o in ops) or "-")
-    rep = ctx.model([line])[0]
+def model_line(fmt, ops):
+    return "run %s %s" % ("b" if fmt == "bzr" else "g",
+                          ",".join(enc_op(tuple(o)) for o in ops if o[0] not in ("lock", "unlock")) or "-")
+
+
+def model_steps(ctx, fmt, ops, rep=None):
+    if rep is None:
+        rep = ctx.model([model_line(fmt, ops)])[0]
     if rep == "bad-op":
         return None
     return rep.split("#") if rep else []
@@ -616,6 +1007,8 @@ def first_diff(real_steps, model):
         mb, inv = strip_inv(b)
         if a != mb or inv != "T":
             return i
+    if len(real_steps) != len(model):
+        return min(len(real_steps), len(model))
     return None
 
 
@@ -654,14 +1047,15 @@ def ddmin(ctx, fmt, ops, kind, budget=70):
 SHRINK_LIMIT = 8      # failing sequences delta-debugged per run (the others are reported as generated)
 
 
-def check_result(ctx, fmt, res, shrink=True):
+def check_result(ctx, fmt, res, shrink=True, rep=None):
     ops = res["ops"]
     case = dict(fmt=fmt, ops=ops)
     if "error" in res:
         ctx.count("harness-error:" + res["error"].split(":")[0])
         ctx.extra.setdefault("harness_errors", []).append(res["error"][:200])
         return
-    good = sum(1 for o, r in zip(ops, res["results"]) if r == "ok" and o[0] not in ("reopen", "write", "chmod", "mkfile"))
+    good = sum(1 for o, r in zip(ops, res["results"]) if r == "ok" and o[0] not in (
+        "reopen", "write", "chmod", "mkfile", "mklink", "lock", "unlock"))
     ctx.case(dict(fmt=fmt, ops=[enc_op(tuple(o)) for o in ops]),
              nontrivial=good >= 3 and any(o[0] in ("commit", "revert", "reopen") for o in ops))
     for o, r in zip(ops, res["results"]):
@@ -669,6 +1063,8 @@ def check_result(ctx, fmt, res, shrink=True):
         if r != "ok":
             ctx.count("%s:%s" % (fmt, r))
     ctx.count("len:%d" % (len(ops) // 5 * 5))
+    for c in res.get("combos", ()):
+        ctx.count(c)
     if res.get("skipped"):
         ctx.count("skipped:bzr-rename-of-removed-basis-path", res["skipped"])
     # oracle
@@ -689,7 +1085,7 @@ def check_result(ctx, fmt, res, shrink=True):
     if res["problems"]:
         return      # the real tree left the abstract state space: nothing to compare after that
     # T2
-    model = model_steps(ctx, fmt, ops)
+    model = model_steps(ctx, fmt, ops, rep)
     ctx.traces += len(ops)
     d = first_diff(res["steps"], model)
     if d is not None:
@@ -702,11 +1098,12 @@ def check_result(ctx, fmt, res, shrink=True):
         d2 = first_diff(r2["steps"], m2)
         if d2 is None:
             small, r2, m2, d2 = ops, res, model, d
-        ctx.mismatch(dict(fmt=fmt, ops=small, step=d2), impl=r2["steps"][d2], model=(m2[d2] if m2 else "bad-op"),
+        ctx.mismatch(dict(fmt=fmt, ops=small, step=d2), impl=(r2["steps"][d2] if d2 < len(r2["steps"]) else "<no step>"),
+                     model=(m2[d2] if m2 and d2 < len(m2) else "bad-op" if m2 is None else "<no step>"),
                      line="run %s %s" % (fmt, ",".join(enc_op(tuple(o)) for o in small)))
 
 
-def run(ctx, nseq=None):
+def run(ctx, nseq=None, matrix_n=None):
     os.environ["RUST_BACKTRACE"] = "0"
     nseq = nseq or ctx.pick(70, 400)
     maxlen = 25      # longer sequences mostly add revert conflicts outside the modelled envelope
@@ -714,16 +1111,26 @@ def run(ctx, nseq=None):
     for k in range(nseq):
         fmt = "bzr" if k % 2 == 0 else "git"
         jobs.append((fmt, ctx.rng.randrange(1 << 30), ctx.rng.randint(6, maxlen)))
-    for c in corpus():
-        res = run_real(c["fmt"], ops=c["ops"])
-        check_result(ctx, c["fmt"], res, shrink=False)
-    results = ctx.pmap(_job, jobs)
-    for (fmt, seed, length), res in zip(jobs, results):
-        check_result(ctx, fmt, res)
+    # the edit x revert matrix: a seeded sample in the quick tier, all of it in the thorough tier
+    matrix = edit_matrix()
+    nm = ctx.pick(40, len(matrix)) if matrix_n is None else matrix_n
+    matrix = ctx.rng.sample(matrix, min(nm, len(matrix)))
+    if nm >= len(edit_matrix()):
+        ctx.extra["edit_matrix"] = "complete (%d sequences)" % len(matrix)
+    else:
+        ctx.extra["edit_matrix"] = "sample of %d of %d sequences" % (len(matrix), len(edit_matrix()))
+    cor = corpus()
+    alljobs = [("ops", c["fmt"], c["ops"]) for c in cor] + [("ops", f, o) for f, o in matrix] + jobs
+    results = ctx.pmap(_job, alljobs)
+    cases = [(j[1] if j[0] == "ops" else j[0], res, k >= len(cor)) for k, (j, res) in enumerate(zip(alljobs, results))]
+    # the model replays all sequences in one batch
+    reps = ctx.model([model_line(fmt, res["ops"]) for fmt, res, _ in cases])
+    for (fmt, res, shrink), rep in zip(cases, reps):
+        check_result(ctx, fmt, res, shrink=shrink, rep=rep)
 
 
 def widen(ctx):
-    run(ctx, nseq=200)
+    run(ctx, nseq=200, matrix_n=10 ** 6)
 
 
 def corpus():
